@@ -1,7 +1,7 @@
-(* Corr_C12_proofs.v — the monitor used by Corr_C12.judge accepts the model's own prediction for
+(* Corr_C12_proofs.v — the monitor used by Corr_C12_defs.judge accepts the model's own prediction for
    every input that satisfies the guards of C12_signed_is_received, and attributes the two known
    refutation witnesses to their findings. *)
-From V Require Import Base Base_proofs CorrBase Signer Signer_proofs Gen_Signer Corr_C12.
+From V Require Import Base Base_proofs CorrBase Signer Signer_proofs Gen_Signer Corr_C12_defs.
 
 Lemma gen_lists_documented :
   signedHeaders = documented_covered /\ SignatureHeaders = documented_covered /\
